@@ -47,6 +47,9 @@ CHECKS = {
             dict(name='additions', Depth=1, SeedIds=[1, 2, 8, 11], Modes='ModesDefault', HistOps=[],
                  TargetOps=['add_face3', 'add_face_v3', 'add_cell4', 'tet_add_cell_4', 'tet_add_cell_v', 'tet_add_cell_v_taken', 'tet_add_cell_new'],
                  q=1, sample=2000),
+            # every face / halfface entry point (add_face, add_face(vertices), add_halfface, add_halfface(v0,v1,v2)) with closed
+            # loops of length 2..5 and open lists, with and without topology check, reusing an existing face or creating
+            dict(name='face-entry', Depth=1, SeedIds=[2], Modes='ModesDefault', HistOps=[], TargetOps=['tet_face_entry'], q=1, sample=500),
             # every halfface list over a tetrahedron plus two dangling triangles (not sampled)
             dict(name='additions-dangling', Depth=1, SeedIds=[11], Modes='ModesDefault', HistOps=[], TargetOps=['add_cell4'], q=1),
             # TetTopology / TriangleTopology for every constructor form and all labels
@@ -63,6 +66,7 @@ CHECKS = {
             dict(name='additions', Depth=1, SeedIds=[1, 2, 5, 8, 11], Modes='ModesAll', HistOps=[],
                  TargetOps=['add_face3', 'add_face_v3', 'add_cell4', 'tet_add_cell_4', 'tet_add_cell_v', 'tet_add_cell_v_taken', 'tet_add_cell_new'],
                  q=1, sample=12000),
+            dict(name='face-entry', Depth=2, SeedIds=[2, 8], Modes='ModesAll', HistOps=['delete_cell'], TargetOps=['tet_face_entry'], q=1, sample=8000),
             dict(name='additions-2', Depth=2, SeedIds=[2, 5, 8], Modes='ModesDefault', HistOps=['delete_cell', 'collapse_edge'],
                  TargetOps=['add_cell4', 'tet_add_cell_4', 'tet_add_cell_v', 'tet_add_cell_v_taken', 'tet_add_cell_new'],
                  q=1, sample=8000),
@@ -119,9 +123,9 @@ CHECKS = {
         thorough=[
             dict(name='tet', kind='tet', Depth=2, SeedIds=[1, 2, 3, 4, 5, 6, 7, 8, 9, 10], HistOps=['delete_cell', 'collapse_edge', 'delete_vertex'],
                  TargetOps=['delete_cell', 'delete_face', 'collect_garbage', 'collapse_edge'], q=0, sample=3000),
-            dict(name='hex', kind='hex', Depth=3, SeedIds=[1, 2, 3, 4, 5, 6, 7], HistOps=['delete_cell', 'collect_garbage'],
+            dict(name='hex', kind='hex', Depth=2, SeedIds=[1, 2, 3, 4, 5, 6, 7], HistOps=['delete_cell', 'collect_garbage'],
                  TargetOps=['delete_cell', 'delete_face', 'delete_vertex', 'collect_garbage', 'hex_add_cell_v'], q=0, sample=3000),
-            dict(name='hex-3x3x3', kind='hex', Depth=2, SeedIds=[9], Modes='ModesAll', HistOps=['delete_cell'],
+            dict(name='hex-3x3x3', kind='hex', Depth=1, SeedIds=[9], Modes='ModesAll', HistOps=[],
                  TargetOps=['delete_cell', 'collect_garbage'], q=0, sample=60),
         ],
         sim=None,
@@ -138,7 +142,7 @@ CHECKS = {
             dict(name='permutations', Depth=2, SeedIds=[1, 2], Modes='ModesDefault', HistOps=['delete_cell'],
                  TargetOps=['add_cell_perm', 'add_cell_bad'], q=0),
             dict(name='valences', Depth=1, SeedIds=[1], Modes='ModesDefault', HistOps=[],
-                 TargetOps=['add_face4', 'add_cell6'], q=0),
+                 TargetOps=['add_face4', 'add_cell6', 'hex_face_entry'], q=0),
         ],
         thorough=[
             dict(name='states', Depth=2, SeedIds=[1, 2, 3, 4, 5, 6],
@@ -155,7 +159,7 @@ CHECKS = {
             dict(name='permutations-L', Depth=2, SeedIds=[4, 5], Modes='ModesDefault', HistOps=['delete_cell'],
                  TargetOps=['add_cell_perm'], q=0),
             dict(name='valences', Depth=2, SeedIds=[1, 2], Modes='ModesAll', HistOps=['delete_cell'],
-                 TargetOps=['add_face4', 'add_cell6'], q=0),
+                 TargetOps=['add_face4', 'add_cell6', 'hex_face_entry'], q=0),
         ],
         sim=dict(quick=dict(SeedIds=[3, 5, 8], num=16, depth=12),
                  thorough=dict(SeedIds=[7, 8, 3, 5], num=240, depth=30),
